@@ -1,6 +1,7 @@
 import InfOCFModel.Ops
 import InfOCFModel.Diag
 import InfOCFModel.Cnf
+import InfOCFModel.Rank
 /-!
 Line-protocol driver: one request per line on stdin, one response per line on stdout.
 
@@ -59,6 +60,19 @@ def listOf {α} (p : P α) : P (List α) := do
 
 def showPart (P : List (List Cond)) : String :=
   String.join (P.map fun L => ",".intercalate (L.map fun c => toString c.key) ++ ";")
+
+def showWorld (w : World) : String := String.join (w.map fun b => if b then "1" else "0")
+
+def showAssoc (l : List (World × Nat)) : String :=
+  ",".intercalate (l.map fun p => showWorld p.1 ++ ":" ++ toString p.2)
+
+def rankFn (Ω : List World) (ranks : List Nat) : World → Nat :=
+  fun w => ((Ω.zip ranks).lookup w).getD 0
+
+/-- the Z-ranking by its definition, in the mode's view: top rank for infeasible worlds -/
+def zSpecRank (weakly : Bool) (P : List (List Cond)) (w : World) : Nat :=
+  let fin := finLayers weakly P
+  if nofal (infLayer weakly P) w then zrk fin w else fin.length + 1
 
 def bit (b : Bool) : String := if b then "1" else "0"
 
@@ -142,6 +156,72 @@ def handle (line : String) : Except String (String × Bool) := do
       let L ← listOf pcond
       let H := (allWorlds n).filter fun w => hard.eval w
       pure (showPart (famMin L H), true)
+    | "frank" =>
+      let n ← pnat
+      let Ω := allWorlds n
+      let mut rs : List Nat := []
+      for _ in [0:Ω.length] do rs := (← pnat) :: rs
+      let φ ← fm
+      match formulaRank Ω (rankFn Ω rs.reverse) φ with
+      | none => pure ("none", true)
+      | some r => pure (toString r, true)
+    | "accept" =>
+      let n ← pnat
+      let Ω := allWorlds n
+      let mut rs : List Nat := []
+      for _ in [0:Ω.length] do rs := (← pnat) :: rs
+      let c ← pcond
+      pure (bit (acceptCode Ω (rankFn Ω rs.reverse) c), true)
+    | "marg" =>
+      let n ← pnat
+      let Ω := allWorlds n
+      let mut rs : List Nat := []
+      for _ in [0:Ω.length] do rs := (← pnat) :: rs
+      let drop ← listOf pnat
+      pure (showAssoc (marginalize Ω (rankFn Ω rs.reverse) drop), true)
+    | "cond" =>
+      let n ← pnat
+      let Ω := allWorlds n
+      let mut rs : List Nat := []
+      for _ in [0:Ω.length] do rs := (← pnat) :: rs
+      let φ ← fm
+      pure (showAssoc (conditionalize Ω (rankFn Ω rs.reverse) φ), true)
+    | "tpo" =>
+      let n ← pnat
+      let Ω := allWorlds n
+      let mut rs : List Nat := []
+      for _ in [0:Ω.length] do rs := (← pnat) :: rs
+      let fvals ← listOf pnat
+      let κ := rankFn Ω rs.reverse
+      let tpo := ranks2tpo Ω κ
+      let layers := ";".intercalate (tpo.map fun L => ",".intercalate (L.map showWorld))
+      let back := tpo2ranks tpo (fun i => fvals.getD i 0)
+      pure (layers ++ "|" ++ showAssoc back, true)
+    | "zobj" =>
+      let n ← pnat
+      let wk ← pnat
+      let D ← listOf pcond
+      let F ← listOf fm
+      let Q ← listOf pcond
+      let Ω := allWorlds n
+      let weakly := wk == 1
+      let D' := if F.isEmpty then D else augment D F
+      match partFor weakly Ω D' with
+      | none => pure ("none", true)
+      | some P =>
+        let code := Ω.map (zObjRank P)
+        let spec := Ω.map (zSpecRank weakly P)
+        let κ := zObjRank P
+        let acc := Q.map fun q => acceptCode Ω κ q
+        let Ωf := feasible Ω (infLayer weakly P)
+        -- operator answers, only meaningful where the antecedent has a feasible model
+        let ops := Q.map fun q =>
+          if Ωf.any (fun w => q.ante.eval w) then
+            (match ansZ weakly Ω D' q with | .val b => bit b | _ => "-")
+          else "x"
+        let okAcc := (List.zip acc ops).all fun p => p.2 == "x" || p.2 == "-" || p.2 == bit p.1
+        pure (" ".intercalate (code.map toString) ++ "|" ++ String.join (acc.map bit) ++ "|" ++ String.join ops,
+              code == spec && okAcc)
     | "ans" =>
       let n ← pnat
       let wk ← pnat
